@@ -296,9 +296,11 @@ def sig_rules(ctx: Ctx, fi, loop, m: str) -> None:
 class _LenCase(TypeCase):
     """TypeCase with one list variable whose length is tracked concretely (0, 1, 2 stand for empty / one / several)."""
 
-    def __init__(self, *a, stack: str, length: int, **kw):
+    def __init__(self, *a, stack, length: int, **kw):
         super().__init__(*a, **kw)
-        self.stack = stack
+        # one name, or several names that each hold the (channel, pitch) stack in a different branch of the dispatch
+        self.stacks = {stack} if isinstance(stack, str) else set(stack)
+        self.stack = sorted(self.stacks)[0]
         self.length0 = length
 
     def _len_of(self, st):
@@ -306,7 +308,7 @@ class _LenCase(TypeCase):
 
     def truth(self, test, st):
         if isinstance(test, ast.Compare) and len(test.ops) == 1 and isinstance(test.left, ast.Call) and isinstance(test.left.func, ast.Name) \
-                and test.left.func.id == "len" and test.left.args and isinstance(test.left.args[0], ast.Name) and test.left.args[0].id == self.stack \
+                and test.left.func.id == "len" and test.left.args and isinstance(test.left.args[0], ast.Name) and test.left.args[0].id in self.stacks \
                 and isinstance(test.comparators[0], ast.Constant) and isinstance(test.comparators[0].value, int):
             ls = self._len_of(st)
             if len(ls) == 1:
@@ -321,7 +323,7 @@ class _LenCase(TypeCase):
             if roots is None:
                 roots = set()
                 for a in ast.walk(self.fi.node):
-                    if isinstance(a, ast.Assign) and isinstance(a.value, ast.Name) and a.value.id == self.stack:
+                    if isinstance(a, ast.Assign) and isinstance(a.value, ast.Name) and a.value.id in self.stacks:
                         for t in a.targets:
                             b = t
                             while isinstance(b, ast.Subscript):
@@ -337,17 +339,28 @@ class _LenCase(TypeCase):
                 if ls and min(ls) >= 1:
                     return isinstance(test.ops[0], ast.In)
                 return None
-        if isinstance(test, ast.UnaryOp) and isinstance(test.op, ast.Not) and isinstance(test.operand, ast.Name) and test.operand.id == self.stack:
+        if isinstance(test, ast.UnaryOp) and isinstance(test.op, ast.Not) and isinstance(test.operand, ast.Name) and test.operand.id in self.stacks:
             ls = self._len_of(st)
             return (next(iter(ls)) == 0) if len(ls) == 1 else None
-        if isinstance(test, ast.Name) and test.id == self.stack:
+        if isinstance(test, ast.Name) and test.id in self.stacks:
             ls = self._len_of(st)
             return (next(iter(ls)) != 0) if len(ls) == 1 else None
+        if isinstance(test, ast.Name) and "$b:" + test.id in st.vals:
+            return next(iter(st.vals["$b:" + test.id]))           # a local that holds the outcome of a test decided above
+        if isinstance(test, ast.Constant) and isinstance(test.value, bool):
+            return test.value
         return super().truth(test, st)
 
     def stmt(self, s, st):
         # `stack = <the stack or its table entry>[:-1]` (a copying pop) and `stack = stack[1:]`: one element fewer
-        if isinstance(s, ast.Assign) and len(s.targets) == 1 and isinstance(s.targets[0], ast.Name) and s.targets[0].id == self.stack \
+        if isinstance(s, ast.Assign) and len(s.targets) == 1 and isinstance(s.targets[0], ast.Name) and s.targets[0].id not in self.stacks \
+                and isinstance(s.value, (ast.UnaryOp, ast.Compare, ast.BoolOp, ast.Constant, ast.Name)):
+            t_ = self.truth(s.value, st) if not (isinstance(s.value, ast.Constant) and not isinstance(s.value.value, bool)) else None
+            if t_ is None:
+                st.vals.pop("$b:" + s.targets[0].id, None)
+            else:
+                st.vals["$b:" + s.targets[0].id] = frozenset([t_])
+        if isinstance(s, ast.Assign) and len(s.targets) == 1 and isinstance(s.targets[0], ast.Name) and s.targets[0].id in self.stacks \
                 and isinstance(s.value, ast.Subscript) and isinstance(s.value.slice, ast.Slice) and s.value.slice.step is None:
             sl = s.value.slice
             drop_last = sl.lower is None and isinstance(sl.upper, ast.UnaryOp) and isinstance(sl.upper.op, ast.USub) and isinstance(sl.upper.operand, ast.Constant) \
@@ -356,7 +369,7 @@ class _LenCase(TypeCase):
             if drop_last or drop_first:
                 st.vals["$len"] = frozenset(max(n - 1, 0) for n in self._len_of(st))
         for c in ast.walk(s):
-            if isinstance(c, ast.Call) and isinstance(c.func, ast.Attribute) and isinstance(c.func.value, ast.Name) and c.func.value.id == self.stack:
+            if isinstance(c, ast.Call) and isinstance(c.func, ast.Attribute) and isinstance(c.func.value, ast.Name) and c.func.value.id in self.stacks:
                 ls = self._len_of(st)
                 if c.func.attr == "append":
                     st.vals["$len"] = frozenset(n + 1 for n in ls)
@@ -376,10 +389,20 @@ def stack_rules(ctx: Ctx, fi, loop, out: str) -> None:
         if isinstance(n, ast.Assign) and isinstance(n.targets[0], ast.Name) and isinstance(n.value, ast.Call) and call_method(n.value)[1] == "get" \
                 and len(n.value.args) == 2 and isinstance(n.value.args[1], ast.List):
             stacks[n.targets[0].id] = n
-    if len(stacks) != 1:
+    if not stacks:
+        # the same table entry fetched by `setdefault(pitch, [])` (stored at once) / `get(pitch)` (None when there is none): several
+        # locals, one per branch of the dispatch, all standing for the stack of the event's channel and pitch
+        for n in ast.walk(loop):
+            if isinstance(n, ast.Assign) and isinstance(n.targets[0], ast.Name) and isinstance(n.value, ast.Call) and isinstance(call_method(n.value)[0], ast.Subscript) \
+                    and ((call_method(n.value)[1] == "setdefault" and len(n.value.args) == 2 and isinstance(n.value.args[1], ast.List) and not n.value.args[1].elts)
+                         or (call_method(n.value)[1] == "get" and len(n.value.args) == 1)) and src(n.value.args[0]).endswith(".note"):
+                stacks[n.targets[0].id] = n
+        if stacks and len({src(call_method(n.value)[0]) for n in stacks.values()}) != 1:
+            stacks = {}
+    if not stacks or (len(stacks) != 1 and any(call_method(n.value)[1] == "get" and len(n.value.args) == 2 for n in stacks.values())):
         ctx.undetermined("STACK", f"{FN}: open-note stack", f"stack variable not recognised ({sorted(stacks)}): not judged")
         return
-    stack = next(iter(stacks))
+    stack = next(iter(stacks)) if len(stacks) == 1 else set(stacks)
     want = {("NOTE_ON", 0): "keep", ("NOTE_ON", 1): "skip", ("NOTE_ON", 2): "skip",
             ("NOTE_OFF", 0): "skip", ("NOTE_OFF", 1): "keep", ("NOTE_OFF", 2): "skip"}
     why = {("NOTE_ON", 0): "a note-on of a silent pitch opens a note", ("NOTE_ON", 1): "re-trigger of a sounding note is dropped",
@@ -390,7 +413,9 @@ def stack_rules(ctx: Ctx, fi, loop, out: str) -> None:
         exits = tc.run_body(loop.body)
         kept = events_matching(exits, lambda e: e[0] == "append" and e[1] == out and e[2] == "msg", kinds=("end",))
         kinds = {k for k, _ in exits}
-        got = "keep" if kinds == {"end"} and kept == (1, 1) else ("skip" if kinds == {"continue"} else f"mixed({sorted(kinds)}, appended {kept})")
+        # skipped: the iteration ends (by `continue`, or by falling off the end of the body) without the message having been appended
+        got = "keep" if kinds == {"end"} and kept == (1, 1) else ("skip" if kinds <= {"continue", "end"} and kept in (None, (0, 0)) and kinds
+                                                                  else f"mixed({sorted(kinds)}, appended {kept})")
         post = set()
         for k, st_ in exits:
             if k in ("end", "continue"):
@@ -407,8 +432,8 @@ def stack_rules(ctx: Ctx, fi, loop, out: str) -> None:
                   if got != w else "ok",
                   message=f"expected `{w}` ({why[(T, L)]}), the code does `{got}`", file=fi.file, node=loop)
     for n in ast.walk(loop):
-        if isinstance(n, ast.Assign) and isinstance(n.targets[0], ast.Name) and n.targets[0].id == stack and isinstance(n.value, ast.Call) \
-                and call_method(n.value)[1] == "get":
+        if isinstance(stack, str) and isinstance(n, ast.Assign) and isinstance(n.targets[0], ast.Name) and n.targets[0].id == stack and isinstance(n.value, ast.Call) \
+                and call_method(n.value)[1] == "get" and len(n.value.args) == 2:
             blk = _block_of(n)
             stores = sorted((x for y in blk for x in ast.walk(y) if isinstance(x, ast.Assign) and isinstance(x.targets[0], ast.Subscript) and isinstance(x.value, ast.Name)
                              and x.value.id == stack and x.lineno > n.lineno), key=lambda x: x.lineno)
@@ -462,6 +487,9 @@ def stack_rules(ctx: Ctx, fi, loop, out: str) -> None:
                 defs_ = [a_ for s_ in after for a_ in ast.walk(s_) if isinstance(a_, ast.Assign) and any(isinstance(t_, ast.Name) and t_.id == it.id for t_ in a_.targets)]
                 okw = len(defs_) == 1 and any(isinstance(x, ast.Name) and x.id in tables_ - {it.id} for x in ast.walk(defs_[0].value)) \
                     and any(defs_[0] in ast.walk(lp_) for lp_ in lps)
+                # ... or it is what an enclosing clean-up loop hands out (`for stack in entry.values(): for msg in stack:`)
+                okw = okw or any(lp_ is not inner and isinstance(lp_.target, ast.Name) and lp_.target.id == it.id
+                                 and isinstance(lp_.iter, ast.Call) and call_method(lp_.iter)[1] in ("values",) for lp_ in lps)
             else:
                 okw = any(isinstance(x, ast.Name) and x.id in tables_ for x in ast.walk(it))
         ctx.check(okw, "STACK", f"{FN}: the clean-up walks the stacks of the open-note table", function=FN,
